@@ -112,6 +112,27 @@ class BareCriteria:
         return cls(**data.get("kwargs", {}))
 
 
+_SHEAR = []
+
+
+def _shear_class():
+    if not _SHEAR:
+        from quansino.operations.core import BaseOperation
+        from quansino.registry import register_class
+
+        class SimpleShear(BaseOperation):
+            """User-defined operation: simple shear (unit determinant, so the volume is bit-for-bit unchanged)."""
+
+            def calculate(self, context):
+                f = np.eye(3)
+                f[0, 1] = context.rng.uniform(-0.05, 0.05)
+                return f
+
+        register_class(SimpleShear, "SimpleShear")
+        _SHEAR.append(SimpleShear)
+    return _SHEAR[0]
+
+
 def _register():
     from quansino.registry import register_class
 
@@ -130,6 +151,8 @@ def scenario(draw):
         "shipped": draw(st.booleans()) if driver in ("Isobaric", "Isotension", "GrandCanonical") else False,
         "seed": draw(st.integers(1, 2 ** 31)),
         "shifts": [draw(st.sampled_from([None, [0.05, 0.0, 0.0], [0.0, -0.03, 0.02]])) for _ in range(3)],
+        # the shipped cell entry uses either a random strain or an exactly volume-preserving simple shear
+        "cell_op": draw(st.sampled_from(["aniso", "shear"])),
     }
     if driver in ("Isobaric", "Isotension", "GrandCanonical") and draw(st.integers(0, 5)) > 0:
         scn["shipped"] = True
@@ -185,6 +208,9 @@ class C20Machine(M.HistoryMachine):
                 sc = M.ScriptedCriteria()
                 if d == "GrandCanonical":
                     mv = ExchangeMove(np.arange(n))
+                elif scn.get("cell_op") == "shear":
+                    mv = CellMove(_shear_class()())
+                    self.labels.add("cell-op:simple-shear")
                 else:
                     mv = CellMove(AnisotropicDeformation(0.03))
                 self.guarded("add_move", self.mc.add_move, mv, criteria=sc, name="shipped")
@@ -260,12 +286,13 @@ class C20Machine(M.HistoryMachine):
             pass
         for i, (mv, _cr) in enumerate(self.users):
             s = _st(mv)
+            a0, c0 = getattr(self, "replaced", {}).get(id(mv), (0, 0))
             got = [n for n in s["atoms_notes"] if n[0] or n[1]]
-            if got != self.expected_atoms_notes:
+            if got != self.expected_atoms_notes[a0:]:
                 self.fail("atom-notification", f"{where}: user move u{i} received non-empty on_atoms_changed calls {got} but the accepted exchange trials were {self.expected_atoms_notes} ({self.scn['driver']})")
                 return
             gotc = s["cell_notes"]
-            exp = self.expected_cell_notes
+            exp = self.expected_cell_notes[c0:]
             if len(gotc) != len(exp) or any(not np.array_equal(a, b) for a, b in zip(gotc, exp)):
                 self.fail("cell-notification", f"{where}: user move u{i} received {len(gotc)} on_cell_changed calls but {len(exp)} cell changes were accepted ({self.scn['driver']})")
                 return
@@ -316,6 +343,32 @@ class C20Machine(M.HistoryMachine):
                 return
         self.verdicts += {True: "A", False: "R", None: "F"}.get(got, "?")
         self._after_any_trial(where, got, added, removed, cell_changed)
+
+    @rule(i=st.integers(0, 2), via=st.sampled_from(["add_move", "storage"]))
+    def replace_user_move(self, i, via):
+        """Replace a user move under its existing table name (both documented ways); the new object must be the one
+        that is executed, serialized and notified from now on."""
+        if self.dead or self.mc is None:
+            return
+        self.log.append({"rule": "replace_user_move", "args": {"i": i, "via": via}})
+        i = i % len(self.users)
+        old_mv, old_cr = self.users[i]
+        mv = BareMove(payload=i + 10)
+        _st(mv)["shift"] = _st(old_mv)["shift"]
+        # the new object has seen no accepted change yet: its expected notification log starts empty
+        if via == "add_move":
+            cr = BareCriteria(payload=i + 20)
+            try:
+                self.guarded("add_move(replace)", self.mc.add_move, mv, criteria=cr, name=f"u{i}")
+            except M.Stop:
+                return
+        else:
+            cr = old_cr
+            self.mc.moves[f"u{i}"].move = mv
+        self.users[i] = (mv, cr)
+        self.replaced = getattr(self, "replaced", {})
+        self.replaced[id(mv)] = (len(self.expected_atoms_notes), len(self.expected_cell_notes))
+        self.labels.add("replaced-user-move")
 
     @rule(verdict=st.booleans(), direction=st.sampled_from(["ins", "del"]))
     def shipped_trial(self, verdict, direction):
